@@ -211,6 +211,11 @@ Theorem C12_fedprox_penalty_gradient : forall mu p s h, length s = length p -> l
   Gen_fed_prox.proximal_penalty mu p s + vdot (vscale mu (vsub p s)) h + (1 # 2) * mu * sumsq h.
 Proof. exact prox_penalty_expansion. Qed.
 
+Theorem C12_sources_are_process_independent :
+  Gen_fed_prox.process_independent = true /\ Gen_apfl.process_independent = true /\ Gen_mime.process_independent = true /\
+  Gen_mime_lite.process_independent = true /\ Gen_hyp_cluster.process_independent = true.
+Proof. exact gen_process_independent. Qed.
+
 (* the guards of the reductions are satisfiable (non-trivial instances) *)
 Example C12_mime_guard_satisfiable :
   let cl : list (mclient (K := key) (B := list example)) :=
@@ -307,6 +312,7 @@ Print Assumptions C12_source_mimelite_is_skeleton.
 Print Assumptions C12_source_hypcluster_one_cluster_is_skeleton.
 Print Assumptions C12_source_inits_and_wiring.
 Print Assumptions C12_fedprox_penalty_gradient.
+Print Assumptions C12_sources_are_process_independent.
 Print Assumptions C12_ls_gradient_is_regularized.
 Print Assumptions C12_ls_fedprox_mu0_eq_fedavg.
 Print Assumptions C12_ls_hypcluster_eq_fedavg.
